@@ -1051,6 +1051,8 @@ func (c *Ctx) builtin(st *State, b *ssa.Builtin, args []Value, call *ssa.CallCom
 			return BVI(int64(x.Len), 64)
 		case string:
 			return BVI(int64(len(x)), 64)
+		case symString:
+			return BVI(int64(len(x.vals)), 64)
 		case *ArrayV:
 			return BVI(int64(len(x.E)), 64)
 		case *MapV:
